@@ -319,24 +319,28 @@ func c17Validation(p *core.Program, r *core.Report, resolver *types.Func) {
 		pos token.Pos
 	}
 	var conds []cnd
+	// Check's body and the unexported helpers it delegates to (a validation split into parts)
+	bodies := []*ast.BlockStmt{check.Body}
 	ast.Inspect(check.Body, func(n ast.Node) bool {
+		if c, ok := n.(*ast.CallExpr); ok {
+			if fn := eng.CalleeOf(cinfo, c); fn != nil && !fn.Exported() && fn.Pkg() == p.Pkg("conf").Types {
+				if _, hfd := p.DeclOf(fn); hfd != nil && hfd.Body != nil && hfd != check {
+					bodies = append(bodies, hfd.Body)
+				}
+			}
+		}
+		return true
+	})
+	eng.InspectInlined(p, cinfo, p.Pkg("conf").Types, check.Body, 1, func(fn *types.Func, _ *ast.FuncDecl) bool { return !fn.Exported() }, func(n ast.Node, _ *eng.InlineCtx, _ int) bool {
 		is, ok := n.(*ast.IfStmt)
 		if !ok || len(is.Body.List) == 0 {
 			return true
 		}
 		if rs, ok := is.Body.List[len(is.Body.List)-1].(*ast.ReturnStmt); ok && len(rs.Results) == 1 && !isNilIdent(cinfo, rs.Results[0]) {
-			// split on ||
-			var split func(e ast.Expr)
-			split = func(e ast.Expr) {
-				e = eng.Unparen(e)
-				if b, ok := e.(*ast.BinaryExpr); ok && b.Op == token.LOR {
-					split(b.X)
-					split(b.Y)
-					return
-				}
-				conds = append(conds, cnd{e, e.Pos()})
+			// the atoms one of which rejects, however the test is written (a || b, !(a' && b'))
+			for _, d := range eng.Disjuncts(is.Cond, false) {
+				conds = append(conds, cnd{d, is.Cond.Pos()})
 			}
-			split(is.Cond)
 		}
 		return true
 	})
@@ -461,22 +465,17 @@ func c17Validation(p *core.Program, r *core.Report, resolver *types.Func) {
 						continue
 					}
 					// is this the count test?
-					var split func(e ast.Expr)
-					split = func(e ast.Expr) {
-						e = eng.Unparen(e)
-						if b, ok := e.(*ast.BinaryExpr); ok && b.Op == token.LOR {
-							split(b.X)
-							split(b.Y)
-							return
-						}
-						if b, ok := e.(*ast.BinaryExpr); ok && b.Op == token.NEQ && found == nil {
-							l, ok1 := env.Eval(b.X)
-							rr, ok2 := env.Eval(b.Y)
-							if ok1 && ok2 {
-								d := l.Add(rr, -1) // d = 0 is what passes
-								if c := d.T["N"]; (c == 1 || c == -1) && len(d.T) == 1 {
-									v := -d.C * c
-									found = &v
+					split := func(e ast.Expr) {
+						for _, d := range eng.Disjuncts(e, false) {
+							if b, ok := d.(*ast.BinaryExpr); ok && b.Op == token.NEQ && found == nil {
+								l, ok1 := env.Eval(b.X)
+								rr, ok2 := env.Eval(b.Y)
+								if ok1 && ok2 {
+									dd := l.Add(rr, -1) // dd = 0 is what passes
+									if c := dd.T["N"]; (c == 1 || c == -1) && len(dd.T) == 1 {
+										v := -dd.C * c
+										found = &v
+									}
 								}
 							}
 						}
@@ -500,7 +499,11 @@ func c17Validation(p *core.Program, r *core.Report, resolver *types.Func) {
 				}
 			}
 		}
-		walk(check.Body.List)
+		for _, body := range bodies {
+			if found == nil {
+				walk(body.List)
+			}
+		}
 		if found == nil {
 			return 0, false
 		}
